@@ -1,0 +1,57 @@
+// Copyright 2025 SCION Association
+//
+// Licensed under the Apache License, Version 2.0 (the "License");
+// you may not use this file except in compliance with the License.
+// You may obtain a copy of the License at
+//
+//   http://www.apache.org/licenses/LICENSE-2.0
+//
+// Unless required by applicable law or agreed to in writing, software
+// distributed under the License is distributed on an "AS IS" BASIS,
+// WITHOUT WARRANTIES OR CONDITIONS OF ANY KIND, either express or implied.
+// See the License for the specific language governing permissions and
+// limitations under the License.
+
+//go:build verif
+
+package router
+
+// Hooks installed by a deterministic simulator. All are nil by default, in which case the
+// instrumented code behaves exactly like the uninstrumented one.
+var (
+	// VerifYieldHook is called before every channel operation of the data path so that the
+	// simulator decides which goroutine proceeds.
+	VerifYieldHook func(site string)
+	// VerifActorHook is called at the top of every long-lived data-path goroutine with a stable
+	// name.
+	VerifActorHook func(name string, id int)
+	// VerifPoolHook is called with op "get" right after a packet left the pool and with op "put"
+	// right before a packet is returned to it (ownership tracking).
+	VerifPoolHook func(op string, p *Packet)
+)
+
+// VerifYield marks a synchronisation point of the data path.
+func VerifYield(site string) {
+	if f := VerifYieldHook; f != nil {
+		f(site)
+	}
+}
+
+// VerifActor names the calling long-lived goroutine.
+func VerifActor(name string, id int) {
+	if f := VerifActorHook; f != nil {
+		f(name, id)
+	}
+}
+
+func verifPoolGet(p *Packet) {
+	if f := VerifPoolHook; f != nil {
+		f("get", p)
+	}
+}
+
+func verifPoolPut(p *Packet) {
+	if f := VerifPoolHook; f != nil {
+		f("put", p)
+	}
+}
